@@ -678,6 +678,12 @@ func (node *Node) AsMapString(ctx *Context, vp unsafe.Pointer) error {
 		knode := NewNode(next)
 		key, _ := knode.AsStr(ctx)
 		val := NewNode(PtrOffset(next, 1))
+		if val.IsNull() {
+			/* null stores the zero value, as the generic map decoder does */
+			m[key] = ""
+			next = PtrOffset(val.cptr, 1)
+			continue
+		}
 		m[key], ok = val.AsStr(ctx)
 		if !ok {
 			if gerr == nil {
@@ -739,6 +745,11 @@ func (node *Node) AsSliceI32(ctx *Context, vp unsafe.Pointer) error {
 	var gerr error
 	for i := 0; i < size; i++ {
 		val := NewNode(next)
+		if val.IsNull() {
+			/* null leaves the element untouched, as the scalar decoders do */
+			next = PtrOffset(val.cptr, 1)
+			continue
+		}
 		ret, ok := val.AsI64(ctx)
 		if !ok || ret > math.MaxInt32 || ret < math.MinInt32 {
 			if gerr == nil {
@@ -768,6 +779,11 @@ func (node *Node) AsSliceI64(ctx *Context, vp unsafe.Pointer) error {
 	var gerr error
 	for i := 0; i < size; i++ {
 		val := NewNode(next)
+		if val.IsNull() {
+			/* null leaves the element untouched, as the scalar decoders do */
+			next = PtrOffset(val.cptr, 1)
+			continue
+		}
 
 		ret, ok := val.AsI64(ctx)
 		if !ok {
@@ -798,6 +814,11 @@ func (node *Node) AsSliceU32(ctx *Context, vp unsafe.Pointer) error {
 	var gerr error
 	for i := 0; i < size; i++ {
 		val := NewNode(next)
+		if val.IsNull() {
+			/* null leaves the element untouched, as the scalar decoders do */
+			next = PtrOffset(val.cptr, 1)
+			continue
+		}
 		ret, ok := val.AsU64(ctx)
 		if !ok || ret > math.MaxUint32 {
 			if gerr == nil {
@@ -827,6 +848,11 @@ func (node *Node) AsSliceU64(ctx *Context, vp unsafe.Pointer) error {
 	var gerr error
 	for i := 0; i < size; i++ {
 		val := NewNode(next)
+		if val.IsNull() {
+			/* null leaves the element untouched, as the scalar decoders do */
+			next = PtrOffset(val.cptr, 1)
+			continue
+		}
 		ret, ok := val.AsU64(ctx)
 		if !ok {
 			if gerr == nil {
@@ -856,6 +882,11 @@ func (node *Node) AsSliceString(ctx *Context, vp unsafe.Pointer) error {
 	var gerr error
 	for i := 0; i < size; i++ {
 		val := NewNode(next)
+		if val.IsNull() {
+			/* null leaves the element untouched, as the scalar decoders do */
+			next = PtrOffset(val.cptr, 1)
+			continue
+		}
 		ret, ok := val.AsStr(ctx)
 		if !ok {
 			if gerr == nil {
@@ -891,7 +922,7 @@ func (val *Node) AsSliceBytes(ctx *Context) ([]byte, error) {
 		var ok bool
 		for i := 0; i < size; i++ {
 			a[i], ok = elem.AsByte(ctx)
-			if !ok && gerr == nil {
+			if !ok && !elem.IsNull() && gerr == nil {
 				gerr = newUnmatched(val.Position(), rt.BytesType)
 			}
 			elem = NewNode(PtrOffset(elem.cptr, 1))
